@@ -17,9 +17,9 @@ type GraphCase struct {
 	Runs    int               `json:"runs"`           // 1 or 2 invocations
 	// ViaClean: the invocation is `spok --clean <request...>` and a task is named clean. --clean runs the user's
 	// clean task; whether the named tasks run as well is not specified, but whatever runs obeys C03.
-	ViaClean bool `json:"via_clean,omitempty"`
-	JSON    bool              `json:"json"`
-	Sched   Sched             `json:"sched"`
+	ViaClean bool  `json:"via_clean,omitempty"`
+	JSON     bool  `json:"json"`
+	Sched    Sched `json:"sched"`
 }
 
 type graphScen struct{}
@@ -75,6 +75,26 @@ func (graphScen) Gen(r *Rng, cfg GenConfig) any {
 			}
 		}
 		c.Request = Shuffled(r, c.Request)
+		return c
+	}
+	if r.Chance(1, 400) {
+		// scale: one long dependency chain (more than 100 levels), defined in random order, the last task requested
+		n := Pick(r, []int{101, 120, 150})
+		name := func(i int) string {
+			return "T_" + string(rune('a'+i/26/26%26)) + string(rune('a'+i/26%26)) + string(rune('a'+i%26))
+		}
+		for i := 0; i < n; i++ {
+			t := TaskDef{Name: name(i), NCmd: 1}
+			if i > 0 {
+				t.Deps = []Dep{{"task", name(i - 1)}}
+			}
+			c.Prog.Tasks = append(c.Prog.Tasks, t)
+		}
+		c.Prog.Tasks = Shuffled(r, c.Prog.Tasks)
+		c.Request = []string{name(n - 1)}
+		if r.Chance(1, 2) {
+			c.Request = Shuffled(r, []string{name(n - 1), name(n / 2)})
+		}
 		return c
 	}
 	var n int
